@@ -95,23 +95,32 @@ def analyse_unit(unit, extra):
     if have_abc:
         f = unit.fn("qabc_rotation")
         pnames = [p["name"] for p in unit.params(f)]
-        interp = CInterp(unit.functions)
-        rot = {}
-        env = {"rotation": nf.Ref({"rot": rot}, "rot")}
-        for p in pnames[1:]:
-            env[p] = s[p]
-        try:
-            interp.stmt(unit.body(f), env)
-        except CInterp.Return:
-            pass
-        for (i, j) in ((1, 1), (1, 2), (2, 1), (2, 2), (3, 1), (3, 2)):
-            name = "R%d%d" % (i, j)
-            got = rot.get(name)
-            want = Rinv[i - 1, j - 1]
-            ok = got is not None and nf.equal(got, want, trig=True)
-            inst("R-C05-matrix", ok, "%s:qabc_rotation" % unit.name, "rotation->%s" % name, f.get("_line", 0),
-                 "equals entry (%d,%d) of (Rz(phi)Ry(theta)Rz(psi)Rx(dphi)Ry(dtheta)Rz(dpsi))^-1 as a polynomial in sin/cos" % (i, j)
-                 if ok else "differs from the documented rotation: residual %s" % (sp.simplify(nf.residual(got, want, True)) if got is not None else "missing"))
+
+        def run_abc(script):
+            interp = CInterp(unit.functions)
+            interp.script = script
+            rot = {}
+            env = {"rotation": nf.Ref({"rot": rot}, "rot")}
+            for p in pnames[1:]:
+                env[p] = s[p]
+            try:
+                interp.stmt(unit.body(f), env)
+            except CInterp.Return:
+                pass
+            return interp.trace, rot
+        for trace, rot in nf.enumerate_paths(run_abc):
+            subs = nf.path_assumptions(trace)
+            where_ = "" if not trace else " on the path %s" % nf.path_text(trace)
+            for (i, j) in ((1, 1), (1, 2), (2, 1), (2, 2), (3, 1), (3, 2)):
+                name = "R%d%d" % (i, j)
+                got = rot.get(name)
+                want = Rinv[i - 1, j - 1]
+                if subs and got is not None:
+                    got, want = got.subs(subs), want.subs(subs)
+                ok = got is not None and nf.equal(got, want, trig=True)
+                inst("R-C05-matrix", ok, "%s:qabc_rotation" % unit.name, "rotation->%s%s" % (name, where_), f.get("_line", 0),
+                     "equals entry (%d,%d) of (Rz(phi)Ry(theta)Rz(psi)Rx(dphi)Ry(dtheta)Rz(dpsi))^-1 as a polynomial in sin/cos" % (i, j)
+                     if ok else "differs from the documented rotation: residual %s" % (sp.simplify(nf.residual(got, want, True)) if got is not None else "missing"))
         # apply: linear map with the matrix rows
         fa = unit.fn("qabc_apply")
         Rs = {n: sym("rotation_" + n) for n in ("R11", "R12", "R21", "R22", "R31", "R32")}
@@ -130,24 +139,33 @@ def analyse_unit(unit, extra):
     if have_ac:
         f = unit.fn("qac_rotation")
         pnames = [p["name"] for p in unit.params(f)]
-        interp = CInterp(unit.functions)
-        rot = {}
-        env = {"rotation": nf.Ref({"rot": rot}, "rot")}
-        for p in pnames[1:]:
-            env[p] = s[p]
-        try:
-            interp.stmt(unit.body(f), env)
-        except CInterp.Return:
-            pass
+
+        def run_ac(script):
+            interp = CInterp(unit.functions)
+            interp.script = script
+            rot = {}
+            env = {"rotation": nf.Ref({"rot": rot}, "rot")}
+            for p in pnames[1:]:
+                env[p] = s[p]
+            try:
+                interp.stmt(unit.body(f), env)
+            except CInterp.Return:
+                pass
+            return interp.trace, rot
         zero = {s["psi"]: 0, s["dpsi"]: 0}
-        for j in (1, 2):
-            name = "R3%d" % j
-            got = rot.get(name)
-            want = Rinv[2, j - 1].subs(zero)
-            ok = got is not None and nf.equal(got, want, trig=True)
-            inst("R-C05-matrix", ok, "%s:qac_rotation" % unit.name, "rotation->%s" % name, f.get("_line", 0),
-                 "third row of the inverse rotation with psi = dpsi = 0" if ok else
-                 "differs: residual %s" % (sp.simplify(nf.residual(got, want, True)) if got is not None else "missing"))
+        for trace, rot in nf.enumerate_paths(run_ac):
+            subs = nf.path_assumptions(trace)
+            where_ = "" if not trace else " on the path %s" % nf.path_text(trace)
+            for j in (1, 2):
+                name = "R3%d" % j
+                got = rot.get(name)
+                want = Rinv[2, j - 1].subs(zero)
+                if subs and got is not None:
+                    got, want = got.subs(subs), want.subs(subs)
+                ok = got is not None and nf.equal(got, want, trig=True)
+                inst("R-C05-matrix", ok, "%s:qac_rotation" % unit.name, "rotation->%s%s" % (name, where_), f.get("_line", 0),
+                     "third row of the inverse rotation with psi = dpsi = 0" if ok else
+                     "differs: residual %s" % (sp.simplify(nf.residual(got, want, True)) if got is not None else "missing"))
         fa = unit.fn("qac_apply")
         Rs = {n: sym("rotation_" + n) for n in ("R31", "R32")}
         outs = {}
